@@ -22,7 +22,12 @@ export VERIF_ROOT="$ROOT"
 export CARGO_NET_OFFLINE=true
 unset CARGO_TARGET_DIR CARGO_BUILD_TARGET_DIR RUSTFLAGS CARGO_ENCODED_RUSTFLAGS
 SEED="${VERIF_SEED:-1}"
-if [ "$T" = generic ]; then DEF_RUNS=60000; else DEF_RUNS=400000; fi
+# fixed work per job, scaled to the cost of one case of the property
+case "$ID" in
+  C11|C16) DEF_RUNS=2000000 ;;
+  C04|C14|C17) DEF_RUNS=400000 ;;
+  *) if [ "$T" = generic ]; then DEF_RUNS=60000; else DEF_RUNS=400000; fi ;;
+esac
 RUNS="${VERIF_FUZZ_RUNS:-$DEF_RUNS}"
 JOBS="${VERIF_FUZZ_JOBS:-8}"
 cd "$ROOT/fuzz" || exit 2
